@@ -419,7 +419,7 @@ func init() {
 		Exec:      c14Exec,
 		Judge:     c14Judge,
 		Describe:  c14Describe,
-		QuickN:    3000,
+		QuickN:    3000*2,
 		ThoroughN: 200000,
 		Fixed:     c14Exhaustive,
 	})
